@@ -449,6 +449,11 @@ Eval(t, rho, st, cx) ==
                         IN IF IsErr(a.v) THEN a ELSE R(Length(a.v), a.st)
     [] t.k = "bi"    -> LET a == Eval(t.x, rho, st, cx)
                         IN IF IsErr(a.v) THEN a
+                           \* Dev_BuiltinOverString: a dynamically typed operand that is a string at run time is
+                           \* iterated byte by byte (the checker rejects a statically typed string)
+                           ELSE IF a.v.t = "str" /\ "Dev_BuiltinOverString" \in cx.dv
+                           THEN Loop(t.name, t.body, [i \in 1..Len(a.v.s) |-> IntK("uint8", Ord(Ch(a.v.s, i)))], 1,
+                                     (IF t.name \in {"filter", "map"} THEN <<>> ELSE 0), rho, a.st, cx)
                            ELSE IF a.v.t # "arr" THEN R(Err("type"), a.st)
                            ELSE Loop(t.name, t.body, a.v.a, 1,
                                      (IF t.name \in {"filter", "map"} THEN <<>> ELSE 0), rho, a.st, cx)
